@@ -215,6 +215,15 @@ def wire_kind_rule(ctx, w, rule):
         if v and any(e[0].rsplit("::", 1)[-1] in ("serialize_u64", "serialize_i64", "serialize_u32", "serialize_u8", "serialize_i32") for e in p.effects):
             as_int.add(v[0])
     ctx.floor("paths of VoipVersionId::serialize", n_paths, 2)
+    # an integer written on a path that has not tested the variant (`match self.as_str() { "0" => serialize_u64(0), .. }`): the kind follows the spelling
+    int_paths_without_variant = sum(1 for p in dex.paths(w.fn(fs[0]), [D.sym("self"), D.sym("ser")])
+                                    if any(e[0].rsplit("::", 1)[-1] in ("serialize_u64", "serialize_i64", "serialize_u32", "serialize_u8", "serialize_i32") for e in p.effects)
+                                    and not [a for a, t in p.conds if a[0] == "variant" and t and D.show(a[1]).lstrip("*&") in ("self", "(self)")])
+    if int_paths_without_variant:
+        ctx.violation(rule, f"{rule}:VoipVersionId:integer-by-spelling", w.where(w.fn(fs[0])),
+                      "Serialize for VoipVersionId writes an integer on a path that has not tested which variant `self` is (the decision follows the string form): the custom "
+                      "string \"0\" is written as the integer 0 and comes back as V0 - a present value changes kind on a round trip")
+        return
     clash = {l: v for l, v in table.items() if v in as_int}
     ctx.check(bool(as_int) and not clash and not odd, rule, f"{rule}:VoipVersionId", w.where(w.fn(ff[0])),
               ok_msg=f"written as integers: {sorted(as_int)}; string table: {table}",
@@ -572,6 +581,7 @@ def run(ctx):
     no_borrowed_str_rule(ctx, w, "C18.no-borrowed-str")
     defaults_rule(ctx, w, "C18.defaults", req)
     map_drained_rule(ctx, w, "C18.map-drained")
+    redacted_keys_rule(ctx, w, "C18.redacted-keys")
     # ---- serde visitors accept transient strings -----------------------------------------------------------------------------------
     ctx.rule("C18.visitors", "every serde Visitor of the workspace that accepts a string (or bytes) in a specialised form (visit_borrowed_str, "
                              "visit_string / visit_borrowed_bytes, visit_byte_buf) also implements the general visit_str / visit_bytes: serde_json hands "
@@ -854,3 +864,35 @@ def map_drained_rule(ctx, w, rule, floor=20):
         else:
             ctx.ok(rule, key, w.where(g), f"{len(pulls)} pull site(s), all in a loop" if pulls else "delegates the map / reads nothing")
     ctx.floor("hand-written visit_map functions", n, floor)
+
+
+def redacted_keys_rule(ctx, w, rule, floor=30):
+    """`RedactedXEventContent` is what is left of `XEventContent` after redaction: the same fields under the same wire keys, fewer of them. A key of the
+    redacted type that the original type does not have (a serde rename lost on one of the siblings) is read from and written to a place where the
+    specification has nothing: the field is dropped when a redacted event is parsed and re-serialized under another name."""
+    ctx.rule(rule, "for every pair (XEventContent, RedactedXEventContent) with derived Serialize: the wire keys of the redacted type are a subset of the wire keys of "
+                   "the original type (constant keys passed to serialize_field / serialize_entry / skip_field)")
+    ser = {}
+    for g in w.all_fns():
+        m = re.search(r"<impl serde_core::ser::Serialize for (.*)>::serialize$", g["path"])
+        if not m or "body" not in g:
+            continue
+        keys = set()
+        for _, c in M.calls(g["body"]):
+            if M.callee_name(c).rsplit("::", 1)[-1] in ("serialize_field", "serialize_entry", "skip_field"):
+                keys |= {a["v"] for a in c["args"] if a.get("k") == "const" and a.get("ty") == "&str"}
+        ser[m.group(1)] = (keys, g)
+    n = 0
+    for ty, (keys, g) in sorted(ser.items()):
+        mod, _, name = ty.rpartition("::")
+        if not (name.startswith("Redacted") and name.endswith("EventContent")):
+            continue
+        orig = f"{mod}::{name[len('Redacted'):]}"
+        if orig not in ser:
+            continue
+        n += 1
+        extra = sorted(keys - ser[orig][0])
+        ctx.check(not extra, rule, f"{rule}:{ty}", w.where(g),
+                  bad_msg=f"{name} reads / writes the key(s) {extra}, which {name[len('Redacted'):]} does not have (it has {sorted(ser[orig][0])}): the field kept by redaction "
+                          f"is looked for under another name, dropped when a redacted event is parsed and written back under a key the specification does not define")
+    ctx.floor("(original, redacted) content type pairs", n, floor)
